@@ -184,7 +184,10 @@ func C12(tier rt.Tier) int {
 	opsFor := func(keys [][]byte, kis []int) []fop {
 		var ops []fop
 		for i, k := range keys {
-			ops = append(ops, fop{k, kis[i], "a"}, fop{k, kis[i], "b"}, fop{k, kis[i], ""})
+			ops = append(ops, fop{k, kis[i], "a"}, fop{k, kis[i], "c"}, fop{k, kis[i], ""})
+			if len(keys) <= 2 {
+				ops = append(ops, fop{k, kis[i], "b"})
+			}
 		}
 		return ops
 	}
